@@ -201,6 +201,12 @@ def judge(case, first, switches, stats, free=False, record_tids=False):
         return None, '', sc
     stats.count('schedules_run')
     if sc is not None:
+        for q, off in sc.sites:
+            stats.tag('instruction_sites_seen', '%s@%d' % (q, off))
+        for q, off in sc.switch_sites:
+            stats.tag('preemption_sites_exercised', '%s@%d' % (q, off))
+        if sc.made:
+            stats.tag('functions_preempted', ','.join(sorted(set(q for q, _ in sc.switch_sites))))
         stats.count('lock_contention_events', sc.contention)
         stats.count('lock_acquisitions', sc.acquisitions)
         stats.count('instruction_events', sc.events)
@@ -284,8 +290,6 @@ def explore_case(ctx, case, label, r):
         tids = list(sc.event_tid)
         st.peak('max_events_per_run', N)
         case['budget'] = 40 * N + 5000
-        for (q, off) in sc.sites:
-            st.see(('site', q, off))
         # (a) systematic single pre-emption
         for k in range(1, N + 1):
             for tgt in range(n):
@@ -298,8 +302,6 @@ def explore_case(ctx, case, label, r):
                 if sc2 is not None and sc2.made:
                     st.count('single_preemptions_effective')
                     st.see((label, first, tuple(sc2.made)))
-                    for s_ in sc2.switch_sites:
-                        st.see(('switch-site',) + s_)
                 if kind is not None:
                     report(ctx, case, first, [(k, tgt)], kind, detail)
         # (b) double pre-emptions: systematic for small programs in thorough, sampled otherwise
@@ -477,5 +479,12 @@ def finalize(stats, coverage):
     coverage['schedules_executed'] = c.get('schedules_run', 0)
     coverage['histories_checked_for_linearizability'] = stats.monitor_evals
     coverage['lock_contention_events'] = c.get('lock_contention_events', 0)
+    try:
+        import dis
+        cu = common.load('cacheutils')
+        codes = [c for c in S.code_objects_of(cu) if c.co_qualname.split('.')[0] in ('LRI', 'LRU')]
+        coverage['instruction_sites_total_in_LRI_LRU'] = sum(len(list(dis.get_instructions(c))) for c in codes)
+    except Exception:
+        pass
     coverage['explanation'] = ('lock_contention_events counts the times a thread found the cache lock '
                                'held by another thread, i.e. switches that landed inside a critical section')
